@@ -267,6 +267,51 @@ let rt to_json from_json x =
   | Exc e -> "EXC " ^ exn_name e
   | Diverge -> "DIVERGE"
 
+(* ---- layer Y: SCHC core and parsers over byte-level Buffers (SchcBytes.v, ParserBytes.v) ------------- *)
+let next_buf () = buf_of_string (next ())
+let read_btv () =
+  match next () with
+  | "b" -> BTVbuf (next_buf ())
+  | _ -> let k = next_int () in BTVmap (repeat_read k (fun () -> let v = next_buf () in let i = next_buf () in (v, i)))
+let read_brfd () =
+  let id = read_fid () in
+  let len = next_int () in
+  let pos = next_int () in
+  let d = dir_of (next ()) in
+  let m = (match next () with "e" -> MO_equal | "i" -> MO_ignore | "m" -> MO_msb | _ -> MO_mapping) in
+  let c = (match next () with "n" -> NotSent | "l" -> LSB | "m" -> MappingSent | "v" -> ValueSent | _ -> Compute) in
+  let t = read_btv () in
+  { br_id = id; br_len = z_of_int len; br_pos = z_of_int pos; br_dir = d; br_tv = t; br_mo = m; br_cda = c }
+let read_brule () =
+  let _ = next () in
+  let id = next_buf () in
+  let nat = (match next () with "C" -> Compression | _ -> NoCompression) in
+  let n = next_int () in
+  { brule_id = id; brule_nature = nat; brule_fds = repeat_read n read_brfd }
+let read_bpdesc () =
+  let _ = next () in
+  let d = dir_of (next ()) in
+  let n = next_int () in
+  let fs = repeat_read n (fun () -> let id = read_fid () in let pos = next_int () in let v = next_buf () in { bf_id = id; bf_val = v; bf_pos = z_of_int pos }) in
+  let pl = next_buf () in
+  { bpd_dir = d; bpd_fields = fs; bpd_payload = pl }
+let stack_of = function "IPv6-UDP-CoAP" -> IPv6_UDP_CoAP | "IPv4-UDP-CoAP" -> IPv4_UDP_CoAP | "IPv4" -> S_IPv4
+                        | "IPv6" -> S_IPv6 | "UDP" -> S_UDP | "CoAP" -> S_CoAP | _ -> S_SCTP
+let run_bytes op =
+  match op with
+  | "bcompress" -> let pd = read_bpdesc () in let r = read_brule () in let d = read_dir_opt () in
+    show string_of_buf (bcompress pd r d)
+  | "bdecompress" -> let s = next_buf () in let r = read_brule () in let d = read_dir_opt () in
+    show string_of_buf (bdecompress s r d)
+  | "bparse" -> let st = stack_of (next ()) in let b = next_buf () in
+    show (fun (fs, pl) ->
+            String.concat " " (List.map (fun f -> Printf.sprintf "%s%d/%d/%s" (string_of_proto f.bf_id.fproto) (int_of_z f.bf_id.fidx) (int_of_z f.bf_pos) (string_of_buf f.bf_val)) fs)
+            ^ " | " ^ string_of_buf pl)
+      (bfactory st b)
+  | "bmatchschc" -> let s = next_buf () in let n = next_int () in let rules = repeat_read n read_brule in
+    show (function None -> "-1" | Some r -> string_of_int (index_of r rules 0)) (bmatch_schc_loop rules s)
+  | _ -> "BADOP " ^ op
+
 let run_json op =
   match op with
   | "buffer" -> rt (fun b -> Ok (buf_to_json b)) buf_from_json (next_buf ())
@@ -290,6 +335,8 @@ let () =
         | "B" :: op :: args -> (try run_buffer op args with Failure m -> "FAIL " ^ m | Stack_overflow -> "FAIL stack")
         | "S" :: op :: args -> (toks := Array.of_list args; cur := 0;
                                 try run_schc op with Failure m -> "FAIL " ^ m | Stack_overflow -> "FAIL stack" | Invalid_argument m -> "FAIL " ^ m)
+        | "Y" :: op :: args -> (toks := Array.of_list args; cur := 0;
+                                try run_bytes op with Failure m -> "FAIL " ^ m | Stack_overflow -> "FAIL stack" | Invalid_argument m -> "FAIL " ^ m)
         | "J" :: op :: args -> (toks := Array.of_list args; cur := 0;
                                 try run_json op with Failure m -> "FAIL " ^ m | Invalid_argument m -> "FAIL " ^ m)
         | op :: _ -> "BADLAYER " ^ op in
